@@ -34,6 +34,9 @@ CHECKS = {
  "C15": dict(cat="model_checking", tech="exhaustive enumeration of every header byte x value x {open, re-read history} against a reference header predicate; conformance against real SQLite",
    text="Every single-byte header mutant (100 offsets x 256 values) on a valid base image per page size is judged by a three-valued reference predicate written from the property text (must-reject / must-accept / silent), at Open and on the re-read path of a long-lived handle (valid -> mutated -> valid history, every public read operation at each step); plus WAL/UTF-16/legacy databases written by real SQLite. Exhaustive in the stated space, so any change to a header check that the property pins is found.",
    note="Trusted: the reference predicate (from the file-format document), the in-memory pager having the file pager's semantics, SQLite 3.40.1 as oracle for the base content. Multi-byte mutations are not enumerated.", ref="5/C15"),
+ "C16": dict(cat="model_checking", tech="exhaustive enumeration of short strings / token sequences / element tuples against totality, determinism and locality oracles",
+   text="Every string of length <=5 (6 thorough) over a 20-symbol alphabet drawn from the tokenizer's branches (3.4M / 67M strings), every token sequence of length <=4 over a 63-token alphabet (16M; length 5 over 30 tokens thorough), every one-token delete/replace/insert of SQLite-valid statements; locality: every ordered pair and triple (quadruple thorough) of 31 column definitions, 12 indexed columns, 10 table constraints in one statement, each element compared with the same text parsed alone, judged only when real SQLite accepts the statement; determinism: every statement re-parsed after every other statement.",
+   note="Hang verdict by a 120 s wall watchdog on a microsecond operation. Strings longer than the bounds only through the structured families.", ref="5/C16"),
  "C17": dict(cat="model_checking", tech="environment-answer enumeration: the callback says stop at every row k of every scan on every shape image",
    text="Every table and index shape image x every stoppable scan (SelectDone, driver result set closed after k rows, Table.Scan, Index.Scan, ScanMin/ScanEq/ScanRange) x every k=1..result size: exactly the first k rows, exactly k callbacks, nil error, lock/unlock balanced.",
    note="Lock release is observed on the in-memory pager here; on the real file pager and /proc/locks in C06.", ref="5/C17"),
